@@ -101,10 +101,15 @@ func parseKey(k string) int {
 	return -1
 }
 
+// parseKeys: a reported node list as a sorted SET (the property speaks of which nodes are reported;
+// getHitKey reports a node once per occurrence in the configured list, a name configured twice is
+// reported twice: the multiplicity is not compared).
 func parseKeys(ks []string) []int {
 	r := make([]int, 0, len(ks))
 	for _, k := range ks {
-		r = append(r, parseKey(k))
+		if id := parseKey(k); !has(r, id) {
+			r = append(r, id)
+		}
 	}
 	sort.Ints(r)
 	return r
@@ -137,6 +142,22 @@ func canonInfo(info *compose.InterruptInfo) *InfoObs {
 	return o
 }
 
+// scribble overwrites the node lists of an InterruptInfo the caller was handed (they are the caller's:
+// if the run loop kept using their backing arrays, its later calls would show it).
+func scribble(info *compose.InterruptInfo) {
+	if info == nil {
+		return
+	}
+	for _, l := range [][]string{info.BeforeNodes, info.AfterNodes, info.RerunNodes} {
+		for i := range l[:cap(l)] {
+			l[:cap(l)][i] = "scribbled"
+		}
+	}
+	for _, s := range info.SubGraphs {
+		scribble(s)
+	}
+}
+
 // SegObs is what one call (a "segment" of the run) showed.
 type SegObs struct {
 	Call    CallSpec `json:"call"`
@@ -155,6 +176,7 @@ type SegObs struct {
 
 type RunObs struct {
 	CompileErr string     `json:"compile_err,omitempty"`
+	ListNote   string     `json:"list_note,omitempty"` // the caller's shared interrupt lists were written to by Compile (explanation only)
 	Ref        *SegObs    `json:"ref,omitempty"`
 	Segs       []*SegObs  `json:"segs,omitempty"`
 	Finished   bool       `json:"finished"`
@@ -362,6 +384,7 @@ func call(r compose.Runnable[map[string]any, map[string]any], rec *recorder, st 
 			if info, ok := compose.ExtractInterruptInfo(rr.err); ok {
 				seg.Class = "interrupt"
 				seg.Info = canonInfo(info)
+				scribble(info)
 			} else if errors.Is(rr.err, compose.ErrExceedMaxSteps) || strings.Contains(rr.err.Error(), compose.ErrExceedMaxSteps.Error()) {
 				seg.Class = "steplimit"
 			} else {
@@ -438,6 +461,7 @@ func Execute(c *Case) *RunObs {
 		obs.CompileErr = err.Error()
 		return obs
 	}
+	obs.ListNote = ib.listNote()
 	for k := 0; k <= MaxResumes; k++ {
 		cs := c.Calls[k%len(c.Calls)]
 		var in map[string]any
